@@ -131,6 +131,7 @@ class Engine(object):
         self.seed_deleted = set()
         self.failed_flush_continued = False
         self.tainted = None; self.tainted_ctx = None     # a new session has a fresh cache
+        self.mod_then_del = set()
         self.rec.tag('s%d' % self.session_no)
         if getattr(self, 'strategy', None) == 'eager':
             # loading strategy 'everything up front': every row and every collection is loaded (prefetch of all
@@ -288,6 +289,7 @@ class Engine(object):
             o2 = self.working.objs[cand]
             for n, a in self.rules.ents[o2.ent].attrs.items():
                 if a.kind != 'ref' or o2.vals.get(n) != oid: continue
+                if a.is_pk: continue      # looking the referrer up needs the object itself first
                 try:
                     ref = self.h.get(cand) or self.obj(cand, via=0)
                     p = getattr(ref, n)
